@@ -117,6 +117,7 @@ def coq_makefile():
 def coq_make(targets, timeout=2400, keep_going=False):
     """Full .vo build of the given targets (relative to coq/).  Returns (ok, log)."""
     with build_lock():
+        os.makedirs(os.path.join(BUILD, "ocaml"), exist_ok=True)   # Extract/Extract.v writes model.ml there (Cd)
         coq_makefile()
         cmd = ["timeout", str(timeout), "make", "-j%d" % NCPU] + (["-k"] if keep_going else []) + list(targets)
         rc, out = sh(cmd, cwd=COQ, timeout=timeout + 30)
